@@ -526,3 +526,20 @@ def ordered_calls(fa):
             dfs(ch)
     dfs(fa.fi.node)
     return out
+
+
+def no_await_between(ctx, rule, fa, def_stmt, use_stmt, what, key=None):
+    """FRESH: a value read from shared state is used before control is handed back to the event loop — no `await` (other than the one that produces the
+    value) lies on any path from the statement that reads it to the statement that uses it; otherwise another task can change the state in between and
+    the use acts on a stale copy."""
+    own = {id(x) for st in (def_stmt, use_stmt) for x in ast.walk(st)}
+    others = [a for a in fa.local_nodes(ast.Await) if id(a) not in own]
+    bad = None
+    for a in others:
+        an = fa.cfg_nodes(a)
+        if fa.path(fa.cfg_nodes(def_stmt), an, include_exc=False) is not None and fa.path(an, fa.cfg_nodes(use_stmt), include_exc=False) is not None:
+            bad = a
+            break
+    ctx.ob(rule, bad is None, fa.site(bad if bad is not None else def_stmt), what, func=fa.fi.qualname, key=key or f"{rule}|{fa.fi.qualname}|fresh",
+           detail="" if bad is None else f"`{unparse(bad)[:80]}` (line {bad.lineno}) runs between reading the value (line {def_stmt.lineno}) and using it (line {use_stmt.lineno})")
+    return bad is None
